@@ -327,9 +327,31 @@ pub struct RespModel {
     /// (optional whitespace, RFC 7230 3.2)
     #[serde(default)]
     pub sep_style: u8,
+    /// further spellings a conforming server may use (bit set): 1 trailer fields after the last
+    /// chunk; 2 chunk extensions on the size lines; 4 the transfer coding written `Chunked` /
+    /// `CHUNKED` (coding names are case-insensitive); 8 optional whitespace after the value of the
+    /// framing header; 16 a 304 response that carries the Content-Length of the representation it
+    /// does not send (RFC 7230 3.3.2)
+    #[serde(default)]
+    pub wire_style: u8,
 }
 
 impl RespModel {
+    fn ws(&self, bit: u8) -> bool {
+        self.wire_style & bit != 0
+    }
+    fn value_tail(&self) -> &'static str {
+        if self.ws(8) { [" ", "\t", "  "][(self.body.len() % 3) as usize] } else { "" }
+    }
+    /// Number of bytes at the end of a chunked message that follow the last-chunk line (trailer
+    /// fields and the final CRLF): once everything before them has arrived, the content is complete.
+    pub fn bytes_after_last_chunk_line(&self) -> usize {
+        2 + if self.ws(1) { b"X-Checksum: 9f3a\r\nX-Trailer-Two: b\r\n".len() } else { 0 }
+    }
+    /// the Content-Length a 304 carries under wire style 16
+    pub fn cl_on_304(&self) -> Option<usize> {
+        if self.status == 304 && self.ws(16) { Some(1234 + self.headers.len()) } else { None }
+    }
     fn styled(&self, name: &str) -> String {
         match self.name_style % 4 {
             1 => name.to_ascii_lowercase(),
@@ -367,11 +389,12 @@ impl RespModel {
         }
         match self.effective_framing() {
             "cl" => {
-                b.extend(format!("{}{}{}\r\n\r\n", self.styled("Content-Length"), self.sep(), self.body.len()).bytes());
+                b.extend(format!("{}{}{}{}\r\n\r\n", self.styled("Content-Length"), self.sep(), self.body.len(), self.value_tail()).bytes());
                 b.extend(&self.body);
             }
             "chunked" => {
-                b.extend(format!("{}{}chunked\r\n\r\n", self.styled("Transfer-Encoding"), self.sep()).bytes());
+                let coding = if self.ws(4) { ["Chunked", "CHUNKED"][self.body.len() % 2] } else { "chunked" };
+                b.extend(format!("{}{}{}{}\r\n\r\n", self.styled("Transfer-Encoding"), self.sep(), coding, self.value_tail()).bytes());
                 let mut pos = 0;
                 let mut sizes: Vec<usize> = Vec::new();
                 for &c in &self.chunks {
@@ -388,18 +411,34 @@ impl RespModel {
                 for s in sizes {
                     let hex = if self.hex_upper { format!("{:X}", s) } else { format!("{:x}", s) };
                     b.extend(hex.bytes());
+                    if self.ws(2) {
+                        b.extend([";ext=1", ";x", ";name=\"v\""][(p + s) % 3].bytes());
+                    }
                     b.extend(b"\r\n");
                     b.extend(&self.body[p..p + s]);
                     b.extend(b"\r\n");
                     p += s;
                 }
-                b.extend(b"0\r\n\r\n");
+                if self.ws(2) {
+                    b.extend(b"0;last\r\n");
+                } else {
+                    b.extend(b"0\r\n");
+                }
+                if self.ws(1) {
+                    b.extend(b"X-Checksum: 9f3a\r\nX-Trailer-Two: b\r\n");
+                }
+                b.extend(b"\r\n");
             }
             "close" => {
                 b.extend(b"\r\n");
                 b.extend(&self.body);
             }
-            _ => b.extend(b"\r\n"),
+            _ => {
+                if let Some(n) = self.cl_on_304() {
+                    b.extend(format!("{}{}{}\r\n", self.styled("Content-Length"), self.sep(), n).bytes());
+                }
+                b.extend(b"\r\n")
+            }
         }
         b
     }
@@ -408,7 +447,11 @@ impl RespModel {
         let mut h: Vec<(String, String)> = self.headers.iter().map(|(k, v)| (k.to_ascii_lowercase(), v.clone())).collect();
         match self.effective_framing() {
             "cl" | "chunked" => h.push(("content-length".into(), format!("{}", self.body.len()))),
-            _ => {}
+            _ => {
+                if let Some(n) = self.cl_on_304() {
+                    h.push(("content-length".into(), format!("{}", n)));
+                }
+            }
         }
         h.sort();
         h
@@ -444,5 +487,16 @@ pub fn gen_resp_model(rng: &mut humsim::rng::Rng, max_body: usize) -> RespModel 
             chunks.push(1 + rng.usize_below(blen));
         }
     }
-    RespModel { version: if rng.chance(1, 5) { "HTTP/1.0".into() } else { "HTTP/1.1".into() }, status, headers, body: if framing == "none" { vec![] } else { body }, framing, chunks, hex_upper: rng.chance(1, 2), name_style: if rng.chance(1, 2) { rng.below(4) as u8 } else { 0 }, sep_style: if rng.chance(1, 3) { rng.below(4) as u8 } else { 0 } }
+    RespModel { version: if rng.chance(1, 5) { "HTTP/1.0".into() } else { "HTTP/1.1".into() }, status, headers, body: if framing == "none" { vec![] } else { body }, framing, chunks, hex_upper: rng.chance(1, 2), name_style: if rng.chance(1, 2) { rng.below(4) as u8 } else { 0 }, sep_style: if rng.chance(1, 3) { rng.below(4) as u8 } else { 0 }, wire_style: 0 }.with_wire_style(rng)
+}
+
+impl RespModel {
+    /// (a separate draw, so that the older dimensions keep their values)
+    fn with_wire_style(mut self, rng: &mut humsim::rng::Rng) -> RespModel {
+        let mut r = humsim::rng::Rng::new(humsim::rng::mix(&[rng.next_u64(), 0x4E5F_0001]));
+        if r.chance(1, 3) {
+            self.wire_style = [1u8, 2, 4, 8, 16, 1 | 2, 4 | 8, 31][r.usize_below(8)];
+        }
+        self
+    }
 }
